@@ -19,7 +19,7 @@ FLAGGED = [
     "could of been", "the 1st and 2rd place", "i am here", "This is a a test", "She said its fine",
 ]
 LEADS = ["", "\U0001F600 ", "é café ", "\U0001D400\U0001D401 ", "\t", "中文 ", "\U0001F468\u200d\U0001F469\u200d\U0001F467 ok ", "  ",
-         "\ufeff", "\u200b", "\u00ad", "\u2060 ", "\U0001F600" * 10 + " ", "\U0001D400\U0001D401\U0001D402\U0001D403\U0001D404\U0001D405 ", "\U0001F600\U0001F600\U0001F600\U0001F600 \U0001F600\U0001F600\U0001F600\U0001F600 "]
+         "\ufeff", "\u200b", "\u00ad", "\u2060 ", "co\u00adop\u00aderation ", "soft\u00adhyphen\u00aded words ", "\U0001F600" * 10 + " ", "\U0001D400\U0001D401\U0001D402\U0001D403\U0001D404\U0001D405 ", "\U0001F600\U0001F600\U0001F600\U0001F600 \U0001F600\U0001F600\U0001F600\U0001F600 "]
 SHORT = ["is is", "and and", "the the", "teh", "a a"]
 # lints that cross a line break (repeated word over a newline / soft break / consecutive comment lines)
 CROSS = [("This is the", "the test"), ("We went to to", "to the shop"), ("\U0001F600 it was and", "and so on")]
